@@ -15,7 +15,7 @@ import pams.agents  # noqa: E402
 import pams.events  # noqa: E402
 import pams.logs  # noqa: E402
 import pams.utils  # noqa: E402
-from pams.agents import Agent  # noqa: E402
+from pams.agents import Agent, HighFrequencyAgent  # noqa: E402
 from pams.runners.sequential import SequentialRunner  # noqa: E402
 from pams.session import Session  # noqa: E402
 from pams.utils.class_finder import find_class  # noqa: E402
@@ -31,7 +31,7 @@ RULE = ("complete enumeration of (1) all inheritance graphs on n named entries w
 WIT = ["inherit_ok", "inherit_missing_parent", "inherit_cycle", "inherit_excluded_key_skipped", "inherit_diamond_or_chain",
        "range_len1", "range_len2", "range_len3plus", "count_group", "two_groups", "rejected_declaration",
        "inherited_range_ignored", "access_subset", "uniform", "const", "normal", "expon", "malformed_spec_rejected",
-       "builtin_class_resolved", "user_class_resolved", "class_error_reported", "legacy_key_equal", "legacy_both_rejected", "class_resolution_sequences", "inherited_count", "entity_through_extends", "agent_int_parameter"]
+       "builtin_class_resolved", "user_class_resolved", "class_error_reported", "legacy_key_equal", "legacy_both_rejected", "class_resolution_sequences", "inherited_count", "entity_through_extends", "agent_int_parameter", "agent_endowment"]
 
 # ---------------------------------------------------------------------------------------------- 1
 
@@ -294,10 +294,36 @@ def random_cases():
         yield ("bad", 0.5, 0.0, i, None)
     # integer-valued agent parameters given as a distribution: the value the agent ends up with lies in the support
     # (u = 1 - 2^-53 is left out here: a + (b - a) u then rounds to b itself in floating point, as Python documents for uniform)
+    for u in [2.0 ** -53, 0.25, 0.5, 0.76, 0.999]:
+        for ci in range(len(ENDOWED)):
+            for ei in range(len(ENDOWMENTS)):
+                for shares in (None, 1, 30, 100000):
+                    yield ("agent_endowment", u, ci, ei, shares)
     for u in [2.0 ** -53, 0.25, 0.26, 0.5, 0.74, 0.76, 0.999]:
         for which in range(len(INT_PARAMS)):
             for a, b in ((2, 4), (1, 6), (3, 4)):
                 yield ("agent_int_param", u, which, a, b)
+
+
+ENDOWED = ["Agent_", "FCNAgent", "MarketShareFCNAgent", "MarketMakerAgent", "ArbitrageAgent", "TestAgent", "HighFrequencyAgent_"]
+ENDOWMENTS = [(50, lambda u: 50.0), ({"const": [50]}, lambda u: 50.0), ([40, 60], lambda u: 40 + 20 * u), ({"uniform": [40, 60]}, lambda u: 40 + 20 * u),
+              (0, lambda u: 0.0), ({"uniform": [1000, 3000]}, lambda u: 1000 + 2000 * u)]
+
+
+def _real_sim(shares):
+    """a real Simulator with two real markets "m" (id 0) and "m2" (id 1), set up and registered the way the runner does"""
+    import random as _r
+    from pams.market import Market
+    from pams.simulator import Simulator
+    sim = Simulator(prng=_r.Random(0))
+    for i, nm in enumerate(("m", "m2")):
+        m = Market(i, _r.Random(i), sim, nm)
+        st = {"tickSize": 1.0, "marketPrice": 100.0}
+        if shares is not None:
+            st["outstandingShares"] = shares
+        m.setup(st)
+        sim._add_market(m)
+    return sim
 
 
 INT_PARAMS = [("MarketMakerAgent", "orderTimeLength", "order_time_length"), ("FCNAgent", "timeWindowSize", "time_window_size"),
@@ -316,8 +342,7 @@ def random_fn(case, wit):
             st.update({"targetMarket": "m", "netInterestSpread": 0.02})
         for form in ([a, b], {"uniform": [a, b]}):
             st[key] = form
-            sim = type("S", (), {})()
-            sim.name2market = {"m": type("M", (), {"market_id": 0})()}
+            sim = _real_sim(None)
             ag = getattr(pams.agents, cname)(0, StubRandom(u=u, g=0.0), sim, "a")
             ag.setup(dict(st), [0])
             v = getattr(ag, attr)
@@ -326,6 +351,31 @@ def random_fn(case, wit):
                                 "%s.%s = %r with u=%r -> %r" % (cname, key, form, u, v))
         wit.inc("agent_int_parameter")
         return (kind, g)
+    if kind == "agent_endowment":
+        # what an agent of every class ends up holding is the value its endowment specification yields for the PRNG's
+        # answer -- whatever the markets it may trade look like (how many shares they have issued, say)
+        import pams.agents
+        cname = ENDOWED[g]
+        spec, want = ENDOWMENTS[a]
+        want = want(u)
+        st = {"cashAmount": spec, "assetVolume": spec}
+        if "FCN" in cname:
+            st.update({"fundamentalWeight": 1.0, "chartWeight": 0.0, "noiseWeight": 0.0, "noiseScale": 0.001, "timeWindowSize": 5, "orderMargin": 0.0})
+        elif cname == "MarketMakerAgent":
+            st.update({"targetMarket": "m", "netInterestSpread": 0.02})
+        elif cname == "ArbitrageAgent":
+            st.update({"orderVolume": 1, "orderThresholdPrice": 1.0})
+        sim = _real_sim(b)
+        cls = {"Agent_": UserX, "HighFrequencyAgent_": _UserHF}.get(cname) or getattr(pams.agents, cname)
+        ag = cls(0, StubRandom(u=u, g=0.0), sim, "a")
+        ag.setup(dict(st), [0, 1])
+        got = (ag.get_cash_amount(), ag.get_asset_volume(0), ag.get_asset_volume(1))
+        if not (abs(got[0] - want) <= 1e-9 * max(1.0, abs(want)) and got[1] == int(want) and got[2] == int(want)):
+            raise Violation("C18.endowment", "an agent's initial cash / holdings are not the values its endowment specification yields",
+                            "%s with cashAmount = assetVolume = %r, PRNG answer %r, markets with outstandingShares %r: cash %r holdings %r / %r, expected %r / %r" % (
+                                cname, spec, u, b, got[0], got[1], got[2], want, int(want)))
+        wit.inc("agent_endowment")
+        return (kind, g, a, b)
     jr = JsonRandom(StubRandom(u=u, g=g))
     if kind in ("uniform", "uniform_list"):
         x = jr.random([a, b] if kind == "uniform_list" else {"uniform": [a, b]})
@@ -367,6 +417,11 @@ def random_fn(case, wit):
 
 
 class UserX(Agent):
+    def submit_orders(self, markets):
+        return []
+
+
+class _UserHF(HighFrequencyAgent):
     def submit_orders(self, markets):
         return []
 
